@@ -1,1 +1,141 @@
-pub fn run(_t: &[&str]) -> Vec<i128> { unimplemented!() }
+// C11 (codec part): stream leader / trailer decoding and the pixel-format table.
+use crate::{eclass, hex, parse};
+use cameleon_device::u3v::protocol::stream;
+use cameleon_device::u3v::Result;
+use cameleon_device::PixelFormat;
+use std::convert::TryFrom;
+use std::panic::{catch_unwind, AssertUnwindSafe};
+
+fn view<T>(r: std::thread::Result<Result<T>>, sh: impl Fn(T) -> Vec<i128>) -> Vec<i128> {
+    let v = match r {
+        Err(_) => vec![2],
+        Ok(Err(e)) => vec![1, eclass(&e)],
+        Ok(Ok(x)) => {
+            let mut v = vec![0];
+            v.extend(sh(x));
+            v
+        }
+    };
+    let mut out = vec![v.len() as i128];
+    out.extend(v);
+    out
+}
+
+fn ptype(t: stream::PayloadType) -> i128 {
+    match t {
+        stream::PayloadType::Image => 0,
+        stream::PayloadType::ImageExtendedChunk => 1,
+        stream::PayloadType::Chunk => 2,
+    }
+}
+
+fn run_leader(buf: &[u8]) -> Vec<i128> {
+    let l = match stream::Leader::parse(buf) {
+        Err(e) => return vec![1, eclass(&e)],
+        Ok(l) => l,
+    };
+    // length of the type specific part = what is left after the 20-byte generic leader
+    let mut out = vec![0, l.leader_size() as i128, l.block_id() as i128, ptype(l.payload_type()), buf.len() as i128 - 20];
+    out.extend(view(catch_unwind(AssertUnwindSafe(|| l.specific_leader_as::<stream::ImageLeader>())), |x| {
+        vec![
+            x.timestamp().as_nanos() as i128,
+            x.pixel_format() as u32 as i128,
+            x.width() as i128,
+            x.height() as i128,
+            x.x_offset() as i128,
+            x.y_offset() as i128,
+            x.x_padding() as i128,
+        ]
+    }));
+    // ImageExtendedChunkLeader must decode exactly like ImageLeader
+    let a = catch_unwind(AssertUnwindSafe(|| l.specific_leader_as::<stream::ImageExtendedChunkLeader>()));
+    let b = catch_unwind(AssertUnwindSafe(|| l.specific_leader_as::<stream::ImageLeader>()));
+    match (a, b) {
+        (Ok(Ok(x)), Ok(Ok(y))) => assert!(
+            x.timestamp() == y.timestamp()
+                && x.pixel_format() == y.pixel_format()
+                && x.width() == y.width()
+                && x.height() == y.height()
+                && x.x_offset() == y.x_offset()
+                && x.y_offset() == y.y_offset()
+                && x.x_padding() == y.x_padding()
+        ),
+        (Ok(Err(x)), Ok(Err(y))) => assert_eq!(eclass(&x), eclass(&y)),
+        (Err(_), Err(_)) => {}
+        _ => panic!("ImageExtendedChunkLeader differs from ImageLeader"),
+    }
+    out.extend(view(catch_unwind(AssertUnwindSafe(|| l.specific_leader_as::<stream::ChunkLeader>())), |x| {
+        vec![x.timestamp().as_nanos() as i128]
+    }));
+    out
+}
+
+fn pstatus(s: stream::PayloadStatus) -> i128 {
+    match s {
+        stream::PayloadStatus::Success => 0,
+        stream::PayloadStatus::DataDiscarded => 1,
+        stream::PayloadStatus::DataOverrun => 2,
+    }
+}
+
+fn run_trailer(buf: &[u8]) -> Vec<i128> {
+    let t = match stream::Trailer::parse(buf) {
+        Err(e) => return vec![1, eclass(&e)],
+        Ok(t) => t,
+    };
+    let mut out = vec![
+        0,
+        t.trailer_size() as i128,
+        t.block_id() as i128,
+        pstatus(t.payload_status()),
+        t.valid_payload_size() as i128,
+        buf.len() as i128 - 28,
+    ];
+    out.extend(view(catch_unwind(AssertUnwindSafe(|| t.specific_trailer_as::<stream::ImageTrailer>())), |x| {
+        vec![x.actual_height() as i128]
+    }));
+    out.extend(view(
+        catch_unwind(AssertUnwindSafe(|| t.specific_trailer_as::<stream::ImageExtendedChunkTrailer>())),
+        |x| vec![x.actual_height() as i128, x.chunk_layout_id() as i128],
+    ));
+    out.extend(view(catch_unwind(AssertUnwindSafe(|| t.specific_trailer_as::<stream::ChunkTrailer>())), |x| {
+        vec![x.chunk_layout_id() as i128]
+    }));
+    out
+}
+
+fn run_pixel(code: u32) -> Vec<i128> {
+    match PixelFormat::try_from(code) {
+        Ok(pf) => vec![0, pf as u32 as i128, u32::from(pf) as i128],
+        Err(_) => vec![1, 10],
+    }
+}
+
+// sweep a range of codes: count of accepted codes, count of accepted codes that do not map back
+fn sweep_pixel(lo: u64, hi: u64) -> Vec<i128> {
+    let (mut acc, mut bad, mut first_bad) = (0i128, 0i128, -1i128);
+    let mut sum: u128 = 0;
+    for c in lo..hi {
+        if let Ok(pf) = PixelFormat::try_from(c as u32) {
+            acc += 1;
+            sum += c as u128 * 31 + pf as u32 as u128;
+            if u32::from(pf) != c as u32 {
+                bad += 1;
+                if first_bad < 0 {
+                    first_bad = c as i128;
+                }
+            }
+        }
+    }
+    vec![0, acc, bad, first_bad, sum as i128]
+}
+
+pub fn run(t: &[&str]) -> Vec<i128> {
+    match t[0] {
+        "c11l" => run_leader(&hex(&t[1][1..])),
+        "c11t" => run_trailer(&hex(&t[1][1..])),
+        "c11p" => run_pixel(parse(t[1])),
+        "c11sweep" => sweep_pixel(parse(t[1]), parse(t[2])),
+        k => panic!("unknown kind {}", k),
+    }
+}
